@@ -47,7 +47,7 @@ def tree_types(rnd, ext=False):
 
 def tree_bigdir(rnd, ext=True):
     ch = []
-    for i in range(300):
+    for i in range(270):
         nm = b"e%04d" % i + b"x" * (i % 23)
         if i % 7 == 0:
             ch.append((nm, BNode(T_DIR, mode=0o755, children=[])))
@@ -313,14 +313,14 @@ def field_cases(rnd, tier):
         yield ("valid:%s" % tname, img)
         nodes = all_nodes(root)
         if tname == "bigdir":
-            nodes = nodes[:1] + rnd.sample(nodes[1:], 6)
+            nodes = nodes[:1] + rnd.sample(nodes[1:], 5)
         cands = []
         for path, n in nodes:
             for k, v in node_overrides(n, facts):
                 cands.append((path, n, k, v))
         sov = super_overrides(sv, lay, len(img))
         if tier == "quick":
-            cands = rnd.sample(cands, min(len(cands), 70 if tname != "bigdir" else 30))
+            cands = rnd.sample(cands, min(len(cands), 70 if tname != "bigdir" else 20))
             sov = rnd.sample(sov, min(len(sov), 30))
         for path, n, k, v in cands:
             old = n.ov
@@ -366,6 +366,50 @@ def loop_cases(rnd):
     for i in range(8):
         d = BNode(T_DIR, mode=0o755, children=[(b"a", d), (b"b", d)])
     yield ("dag:8", build(d))
+
+
+def insert_pad(img, sv, lay, at, n):
+    """insert n filler bytes at absolute position `at` (a table boundary) of a Builder image without fragments,
+    fixing up the absolute positions behind it"""
+    b = bytearray(img[:at]) + b"\xa5" * n + bytearray(img[at:])
+    names = ["bytes_used", "id_table_start", "xattr_table_start", "inode_table_start", "dir_table_start",
+             "frag_table_start", "export_table_start"]
+    for i, k in enumerate(names):
+        v = sv[k]
+        if v != NOTBL and v >= at:
+            struct.pack_into("<Q", b, 40 + 8 * i, v + n)
+    ids = lay["id_start"] + (n if lay["id_start"] >= at else 0)
+    loc = struct.unpack_from("<Q", b, ids)[0]
+    if loc >= at:
+        struct.pack_into("<Q", b, ids, loc + n)
+    return b
+
+
+def meta_header_cases(rnd, tier):
+    """edits of the 16 bit metadata block headers (size / compressed flag) of every table; for the inode and
+    directory tables also with 40000 filler bytes behind the table inside the reader's window, so that an unchecked
+    size really reaches readable bytes"""
+    vals = [0, 1, 2, 0x1FFF, 0x2000, 0x2001, 0x3FFF, 0x4000, 0x7FFF, 0x8000, 0x8001, 0x9FFF, 0xA000, 0xA001, 0xBFFF,
+            0xC000, 0xC001, 0xFFFE, 0xFFFF]
+    root, kw = TEMPLATES[4][1](rnd)            # frag: has inode, dir, fragment and id blocks
+    img, sv, lay, facts = probe(root, kw)
+    spots = [("inode", lay["inode_start"]), ("dir", lay["dir_start"]),
+             ("id", struct.unpack_from("<Q", img, lay["id_start"])[0]),
+             ("frag", struct.unpack_from("<Q", img, lay["frag_start"])[0])]
+    for nm, pos in spots:
+        real = struct.unpack_from("<H", img, pos)[0]
+        for v in vals + [real - 1, real + 1, real ^ 0x8000]:
+            b = bytearray(img)
+            struct.pack_into("<H", b, pos, v & 0xFFFF)
+            yield ("methdr:%s=%#x" % (nm, v & 0xFFFF), bytes(b))
+    root, kw = TEMPLATES[2][1](rnd)            # types: no fragments
+    img, sv, lay, facts = probe(root, kw)
+    idloc = struct.unpack_from("<Q", img, lay["id_start"])[0]
+    for nm, pos, at in (("inode", lay["inode_start"], lay["dir_start"]), ("dir", lay["dir_start"], idloc)):
+        for v in vals:
+            b = insert_pad(img, sv, lay, at, 40000)
+            struct.pack_into("<H", b, pos, v)
+            yield ("methdr-pad:%s=%#x" % (nm, v), bytes(b))
 
 
 # --------------------------------------------------------------------------
